@@ -8,13 +8,14 @@ set_option linter.unusedSimpArgs false
 namespace HeaderWrite
 open Machine Headers Generated.HeaderWrite
 
-/-- what the generated body leaves: every statement understood; nothing written and `mode_info` untouched under an
-omitted file style (outside color-only mode); otherwise the blank line (outside color-only mode), then the header drawn
-with the mode information as addendum, and `mode_info` empty. (Stated on the three observable fields, so that a
-rewrite which only introduces a local - `let info = std::mem::take(mode_info)` before the draw - still satisfies it.) -/
+/-- what the generated body leaves: every statement understood; `mode_info` empty, **whatever the configuration**
+(since the repair of the early return: the omitted branch clears it too); nothing written under an omitted file style
+(outside color-only mode); otherwise the blank line (outside color-only mode), then the header drawn with the mode
+information as addendum. (Stated on the three observable fields, so that a rewrite which only introduces a local -
+`let info = std::mem::take(mode_info)` before the draw - still satisfies it.) -/
 theorem run_spec (cfg : Cfg) (mi : Str) :
     (run cfg mi).understood = true ∧
-      (run cfg mi).modeInfo = (if cfg.fileStyle.isOmitted ∧ ¬ cfg.colorOnly then mi else []) ∧
+      (run cfg mi).modeInfo = [] ∧
       (run cfg mi).out = (if cfg.fileStyle.isOmitted ∧ ¬ cfg.colorOnly then []
                           else (if cfg.colorOnly then [] else [Ev.blank]) ++ [Ev.draw mi]) := by
   unfold run body
@@ -23,8 +24,7 @@ theorem run_spec (cfg : Cfg) (mi : Str) :
 
 theorem run_understood (cfg : Cfg) (mi : Str) : (run cfg mi).understood = true := (run_spec cfg mi).1
 
-theorem run_modeInfo (cfg : Cfg) (mi : Str) :
-    (run cfg mi).modeInfo = if cfg.fileStyle.isOmitted ∧ ¬ cfg.colorOnly then mi else [] := (run_spec cfg mi).2.1
+theorem run_modeInfo (cfg : Cfg) (mi : Str) : (run cfg mi).modeInfo = [] := (run_spec cfg mi).2.1
 
 theorem run_out (cfg : Cfg) (mi : Str) :
     (run cfg mi).out = if cfg.fileStyle.isOmitted ∧ ¬ cfg.colorOnly then []
